@@ -7,18 +7,50 @@ from ..core import Case
 
 ID = 'C17'
 MANIFEST = {
-    'text': 'placeholder',
-    'note': 'placeholder',
+    'text': ('Coq: S = eager association list + abstract LRU cache (SF/BusSpec.v); M = Bus.__init__/_store_reader/_update_series_cache_iloc/'
+             '_extract_*/items/values/get/iter_element/drop/reindex/sort_* of bus.py modelled statement by statement (SF/Bus.v); the store '
+             'coherence decision Store._mtime_coherent/_mtime_update and the presence of the coherence decorators are REGENERATED from '
+             'store.py/store_zip.py/store_sqlite.py on every run (Gen/Gen_c17.v). Theorems (all unbounded): C17_bus_refines_spec -- for every '
+             'store, every max_persist in {None, >=1} and EVERY history of the domain (selections by label/list/slice/Boolean/position, '
+             'items, values, keys, status, drop, reindex, sort_index, derived Bus continued or not, file touched/rewritten/removed at any point) '
+             'M returns exactly the Frames, labels, loaded flags and exceptions of S; C17_spec_bounded -- never more than max_persist loaded, '
+             'all histories; C17_spec_is_lru / C17_spec_no_limit_keeps_all -- the cache holds exactly the min(k, distinct) most recently used '
+             'labels; C17_stale_read_raises -- a stale file makes the next read raise StoreFileMutation, no data, nothing loaded; '
+             'C17_mtime_decision -- the regenerated decision passes iff the file exists with the recorded mtime and every read entry point is '
+             'decorated; C17_reader_batches / C17_reads_are_lazy -- reads are the deferred labels of the key, once, in order, in batches <= '
+             'max_persist. Correspondence: API-level histories on real store files (zip pickle/csv/tsv, sqlite) in a per-run temp dir, '
+             'exhaustive over a 10-operation alphabet, random long histories with derived Buses, file mutation at every point, malformed keys, '
+             'write/reopen round trips; kernel level: _loaded/_last_accessed/store read calls after every step, Bus._store_reader with a stub.'),
+    'note': ('partial. Outside the theorem domain (and refuted by witness in Refuted/C17.v, listed as known findings): Bus.get / iter_element '
+             'placeholders, sort_values with max_persist < len, config[labels] on the max_persist==1 bulk path, LRU key left behind by a failed '
+             'read once the file is restored. sort_values is in the domain only for max_persist=None. Observed, not proved: the byte codecs '
+             '(csv/tsv/pickle/sqlite are oracles; their fidelity is sampled by the round-trip stratum), Series/Index key resolution (modelled in '
+             'resolve, tied by the correspondence), mtime granularity (the harness forces distinct integral mtimes with os.utime), the window '
+             'between the coherence check and the lazy read. Optional formats (xlsx, hdf5, parquet) are absent here and not exercised.'),
+    'technique': 'forward simulation M ~ S over operation histories (Coq), differential histories on real store files',
 }
 PROPERTY_FILES = ['Properties/C17.v']
-REFUTED_FILES = []
-MODEL_FILES = ['SF/BusInst.v']
+REFUTED_FILES = ['Refuted/C17.v']
+MODEL_FILES = ['SF/BusSpecInst.v', 'SF/BusInst.v']
 IMPORTS = 'Require Import SF.Prelude SF.PySlice SF.Value SF.Dtype SF.BusSpec SF.Bus SF.BusInst.'
 IMPORTS_SPEC_ONLY = 'Require Import SF.Prelude SF.PySlice SF.Value SF.Dtype SF.BusSpec SF.BusSpecInst.'
-RULE = 'placeholder'
-ASSUMPTIONS = []
-TRUSTED = []
-EXHAUSTIVE = {'quick': False, 'thorough': False}
+RULE = ('a case is one HISTORY: a store of 2..6 small Frames (8 kinds: string/int/auto/hierarchical index, hierarchical columns, mixed dtypes, '
+        'chosen block layout) written with Bus.to_<format>, opened with Bus.from_<format>(max_persist), then a list of public operations; '
+        'after every operation the result (Frames identified by the canonical literal of what was written, labels, exception class) and '
+        'bus.status["loaded"] are compared with M and with S evaluated in Coq on the same history. Strata: exhaustive (all histories of '
+        'length 3 quick / 4 thorough over a fixed 10-operation alphabet x max_persist None,1,2,3), random (online generation from the '
+        'current labels incl. derived Buses), stale (file touched/rewritten/deleted at every point), malformed keys, kernel (private '
+        '_loaded/_last_accessed and the read calls reaching the store), Bus._store_reader against a stub, write/reopen round trip with full '
+        'Frame literals, one narrow stratum per known finding. Non-trivial: max_persist active or the stale file actually refused a read; '
+        'distinct = distinct (store, max_persist, history).')
+ASSUMPTIONS = [
+    'a store file is (label -> Frame decoded with its own StoreConfig, Frame decoded with the default StoreConfig); csv/tsv/pickle/sqlite codecs are oracles',
+    'file mtimes are integral and the harness never restores the recorded mtime together with other bytes (os.utime forces distinct mtimes)',
+    'labels f0..f9 <-> integers by rank (string order = integer order); Frames <-> rank of their canonical literal',
+    'Index._loc_to_iloc / NumPy indexing of a 1-D index = BusSpec.resolve (tied by the malformed and random strata)',
+]
+TRUSTED = ['tools/sfv/props/c17.py:generate -- fail-closed mini translator of Store._mtime_coherent/_mtime_update and decorator presence (Gen/Gen_c17.v)']
+EXHAUSTIVE = {'quick': True, 'thorough': True}
 TRANSLATED = []
 
 STORE_PY = 'static_frame/core/store.py'
@@ -242,6 +274,918 @@ Definition writes_recorded : bool := write_decorator_records && forallb snd writ
     return {'Gen/Gen_c17.v': text}
 
 
+
+# ==============================================================================================
+# the implementation side: frames, stores on disk, operations, observations
+import itertools
+import shutil
+import tempfile
+
+import numpy as np
+
+T0 = 1_000_000_000          # mtime given to every store file after writing (integral, far from "now")
+FORMATS = ('zip_pickle', 'zip_csv', 'zip_tsv', 'sqlite')
+EXT = {'zip_pickle': '.zip', 'zip_csv': '.zip', 'zip_tsv': '.zip', 'sqlite': '.sqlite'}
+OPTIONAL = {'xlsx': ('xlsxwriter', '.xlsx'), 'hdf5': ('tables', '.h5'), 'zip_parquet': ('pyarrow', '.zip')}
+UNKNOWN_LABEL = 'zz'        # a label no store has (rank 99)
+
+# frame kinds -> (index_depth, columns_depth, include_index): the StoreConfig needed to read them back
+KIND_CFG = {
+    'str_idx': (1, 1, True), 'mixed': (1, 1, True), 'int_idx': (1, 1, True), 'one': (1, 1, True), 'wide': (1, 1, True),
+    'auto': (0, 1, False), 'ih_idx': (2, 1, True), 'ih_cols': (1, 2, True),
+}
+KINDS_BY_CLASS = {}
+for _k, _c in KIND_CFG.items():
+    KINDS_BY_CLASS.setdefault(_c, []).append(_k)
+
+
+def _rank(label):
+    label = str(label)
+    if label == UNKNOWN_LABEL:
+        return 99
+    return int(label[1:])
+
+
+def _label(rank):
+    return f'f{rank}'
+
+
+def make_frame(kind, label, v, rng):
+    """A small Frame of the given kind whose [0, 0] cell is the integer v (the sort_values key)."""
+    import static_frame as sf
+    from .. import zoo
+    r = lambda: rng.randrange(-50, 50)
+    if kind == 'str_idx':
+        return sf.Frame.from_records([(v, r()), (r(), r())], columns=('x', 'y'), index=('p', 'q'), name=label)
+    if kind == 'mixed':
+        return sf.Frame.from_fields(([v, r(), r()], [rng.choice(['a', 'bb', 'c d']) for _ in range(3)],
+                                     [rng.random() < .5 for _ in range(3)], [rng.randrange(-8, 8) / 4 for _ in range(3)]),
+                                    columns=('i', 's', 'b', 'f'), index=('p', 'q', 'r'), name=label)
+    if kind == 'int_idx':
+        return sf.Frame.from_records([(v, rng.randrange(-8, 8) / 2)], columns=('x', 'y'), index=(10,), name=label)
+    if kind == 'one':
+        return sf.Frame.from_records([(v,)], columns=('x',), index=('p',), name=label)
+    if kind == 'wide':
+        cols = [np.array([v, r()])] + [np.array([r(), r()]) for _ in range(3)]
+        layouts = list(zoo.layouts_for([c.dtype for c in cols]))
+        return zoo.frame_from_columns(cols, rng.choice(layouts), index=('p', 'q'), columns=('a', 'b', 'c', 'd'), name=label)
+    if kind == 'auto':
+        return sf.Frame.from_records([(v, 'a'), (r(), 'b')], columns=('x', 'y'), name=label)
+    if kind == 'ih_idx':
+        return sf.Frame.from_records([(v, r()), (r(), r()), (r(), r())], columns=('x', 'y'),
+                                     index=sf.IndexHierarchy.from_labels([('a', 1), ('a', 2), ('b', 1)]), name=label)
+    if kind == 'ih_cols':
+        return sf.Frame.from_records([(v, r(), r()), (r(), r(), r())],
+                                     columns=sf.IndexHierarchy.from_labels([('a', 'u'), ('a', 'v'), ('b', 'u')]),
+                                     index=('p', 'q'), name=label)
+    raise ValueError(kind)
+
+
+def store_config(kind):
+    import static_frame as sf
+    idx, col, inc = KIND_CFG[kind]
+    return sf.StoreConfig(index_depth=idx, columns_depth=col, include_index=inc, include_columns=True)
+
+
+class Env:
+    """One store file on disk + what was written into it."""
+
+    def __init__(self, tmp, name, fmt, order, kinds, mapped, rng):
+        import static_frame as sf
+        self.fmt = fmt
+        self.order = list(order)                     # labels in store order
+        self.kinds = dict(zip(order, kinds))
+        self.mapped = bool(mapped) and fmt != 'zip_pickle'
+        keys = rng.sample(range(-40, 40), len(order))
+        self.frames = {l: make_frame(k, l, v, rng) for l, k, v in zip(order, kinds, keys)}
+        self.fid = {l: 10 + _rank(l) for l in order}
+        self.sortkey = {self.fid[l]: v for l, v in zip(order, keys)}
+        self.lit2id = {lit.oframe(f): self.fid[l] for l, f in self.frames.items()}
+        if len(self.lit2id) != len(order):
+            raise RuntimeError('zoo frames are not pairwise distinct')
+        if fmt == 'zip_pickle':
+            self.cfg = None
+        elif self.mapped:
+            self.cfg = {l: store_config(k) for l, k in self.kinds.items()}
+        else:
+            self.cfg = store_config(kinds[0])
+        self.fp = os.path.join(tmp, name + EXT[fmt])
+        bus = sf.Bus.from_frames([self.frames[l] for l in order])
+        if self.cfg is None:
+            getattr(bus, 'to_' + fmt)(self.fp)
+        else:
+            getattr(bus, 'to_' + fmt)(self.fp, config=self.cfg)
+        os.utime(self.fp, (T0, T0))
+        self.backup = self.fp + '.orig'
+        shutil.copyfile(self.fp, self.backup)
+        os.utime(self.backup, (T0, T0))
+
+    def clone(self, tmp, name):
+        """A private copy of the file for a history that touches it."""
+        other = Env.__new__(Env)
+        other.__dict__.update(self.__dict__)
+        other.fp = os.path.join(tmp, name + EXT[self.fmt])
+        shutil.copyfile(self.backup, other.fp)
+        os.utime(other.fp, (T0, T0))
+        return other
+
+    def open(self, mp):
+        import static_frame as sf
+        ctor = getattr(sf.Bus, 'from_' + self.fmt)
+        if self.cfg is None:
+            return ctor(self.fp, max_persist=mp)
+        return ctor(self.fp, config=self.cfg, max_persist=mp)
+
+    def file_op(self, what, t):
+        if what == 'delete':
+            if os.path.exists(self.fp):
+                os.remove(self.fp)
+        elif what == 'touch':
+            if not os.path.exists(self.fp):
+                shutil.copyfile(self.backup, self.fp)
+            os.utime(self.fp, (t, t))
+        elif what == 'rewrite':
+            # other bytes under the same name (the frames of the store in reverse order), then a distinct mtime
+            import static_frame as sf
+            bus = sf.Bus.from_frames([self.frames[l] for l in reversed(self.order)])
+            if os.path.exists(self.fp):
+                os.remove(self.fp)
+            if self.cfg is None:
+                getattr(bus, 'to_' + self.fmt)(self.fp)
+            else:
+                getattr(bus, 'to_' + self.fmt)(self.fp, config=self.cfg)
+            os.utime(self.fp, (t, t))
+        elif what == 'restore':
+            shutil.copyfile(self.backup, self.fp)
+            os.utime(self.fp, (T0, T0))
+        else:
+            raise ValueError(what)
+
+    # ---- literals
+    def content_lit(self, default_differs=None):
+        items = []
+        for l in self.order:
+            f = self.fid[l]
+            fd = f + 100 if (self.mapped if default_differs is None else default_differs) else f
+            items.append(f'({_rank(l)}, ({f}, {fd}))')
+        return lit.lst(items)
+
+    def keytbl_lit(self):
+        return lit.lst([f'({f}, {lit.z(v)})' for f, v in sorted(self.sortkey.items())])
+
+    def describe(self):
+        return {'format': self.fmt, 'labels': self.order, 'kinds': [self.kinds[l] for l in self.order],
+                'config': 'none' if self.cfg is None else ('per-label map' if self.mapped else 'one StoreConfig'),
+                'frames': {l: repr(self.frames[l].to_pairs()) [:200] for l in self.order}}
+
+
+# ---------------------------------------------------------------------------------- operations
+def key_py(key):
+    kind, v = key
+    if kind == 'mask':
+        return np.array(v, dtype=bool)
+    if kind == 'slice':
+        return slice(*v)
+    if kind == 'lslice':
+        return slice(v[0], v[1])
+    if kind in ('list', 'labels'):
+        return list(v)
+    return v
+
+
+def key_coq(key):
+    kind, v = key
+    oz = lambda l: 'None' if l is None else f'(Some {_rank(l)})'
+    if kind == 'int':
+        return f'(kI {lit.z(v)})'
+    if kind == 'list':
+        return f'(kL {lit.lst([lit.z(x) for x in v])})'
+    if kind == 'slice':
+        return f'(kS {lit.slice_(slice(*v))})'
+    if kind == 'mask':
+        return f'(kM {lit.lst([lit.b(x) for x in v])})'
+    if kind == 'label':
+        return f'(kl {_rank(v)})'
+    if kind == 'labels':
+        return f'(kls {lit.lst([str(_rank(x)) for x in v])})'
+    if kind == 'lslice':
+        return f'(klS {oz(v[0])} {oz(v[1])})'
+    raise ValueError(kind)
+
+
+def key_size(key, n_labels, cur):
+    """How many labels the key selects (None if it is malformed) -- used to keep derived Buses non-empty."""
+    kind, v = key
+    try:
+        if kind in ('int', 'label'):
+            return 1
+        if kind in ('list', 'labels'):
+            return len(v)
+        if kind == 'slice':
+            return len(range(n_labels)[slice(*v)])
+        if kind == 'mask':
+            return sum(v)
+        if kind == 'lslice':
+            lo = 0 if v[0] is None else cur.index(v[0])
+            hi = n_labels if v[1] is None else cur.index(v[1]) + 1
+            return max(0, hi - lo)
+    except Exception:  # noqa
+        return None
+
+
+def op_coq(op):
+    k = op[0]
+    if k == 'sel':
+        return f'oSel {key_coq(op[2])} {lit.b(op[3])}'
+    if k == 'head':
+        return f'oSel (kS (mk_slice None (Some {lit.z(op[1])}) None)) {lit.b(op[2])}'
+    if k == 'tail':
+        return f'oSel (kS (mk_slice (Some {lit.z(-op[1])}) None None)) {lit.b(op[2])}'
+    if k == 'items':
+        return 'oItems'
+    if k == 'values':
+        return 'oValues'
+    if k in ('keys', 'iter'):
+        return 'oKeys'
+    if k == 'status':
+        return 'oStatus'
+    if k == 'get':
+        return f'oGet {_rank(op[1])}'
+    if k == 'iter_element':
+        return 'oIterElem'
+    if k == 'iter_element_items':
+        return 'oIterItems'
+    if k == 'drop':
+        return f'oDrop {key_coq(op[2])} {lit.b(op[3])}'
+    if k == 'reindex':
+        return f'oReindex {lit.lst([str(_rank(x)) for x in op[1]])} {lit.b(op[2])}'
+    if k == 'sort_index':
+        return f'oSortIndex {lit.b(op[1])} {lit.b(op[2])}'
+    if k == 'sort_values':
+        return f'oSortValues {lit.b(op[1])} {lit.b(op[2])}'
+    if k == 'file':
+        return 'oFile None' if op[1] == 'delete' else f'oFile (Some {T0 if op[1] == "restore" else op[2]})'
+    raise ValueError(k)
+
+
+def op_desc(op):
+    k = op[0]
+    if k == 'sel':
+        via, key = op[1], op[2]
+        acc = 'bus' if via == 'getitem' else f'bus.{via}'
+        return f'{acc}[{key_py(key)!r}]' + (' -> continue on the result' if op[3] else '')
+    if k == 'drop':
+        via, key = op[1], op[2]
+        acc = 'bus.drop' if via == 'getitem' else f'bus.drop.{via}'
+        return f'{acc}[{key_py(key)!r}]' + (' -> continue on the result' if op[3] else '')
+    if k in ('head', 'tail'):
+        return f'bus.{k}({op[1]})' + (' -> continue on the result' if op[2] else '')
+    if k == 'items':
+        return 'list(bus.items())'
+    if k == 'values':
+        return 'tuple(bus.values)'
+    if k == 'keys':
+        return 'list(bus.keys())'
+    if k == 'iter':
+        return 'list(iter(bus))'
+    if k == 'status':
+        return "bus.status['loaded']"
+    if k == 'get':
+        return f'bus.get({op[1]!r})'
+    if k == 'iter_element':
+        return 'tuple(bus.iter_element())'
+    if k == 'iter_element_items':
+        return 'tuple(bus.iter_element_items())'
+    if k == 'reindex':
+        return f'bus.reindex({op[1]!r}, fill_value=None)' + (' -> continue on the result' if op[2] else '')
+    if k == 'sort_index':
+        return f'bus.sort_index(ascending={op[1]})' + (' -> continue on the result' if op[2] else '')
+    if k == 'sort_values':
+        return (f'bus.sort_values(ascending={op[1]}, key=lambda s: np.array([int(f.iloc[0, 0]) for f in s.values]))'
+                + (' -> continue on the result' if op[2] else ''))
+    if k == 'file':
+        t = op[2] if len(op) > 2 else None
+        return {'touch': f'os.utime(fp, ({t}, {t}))', 'rewrite': f'write other frames to fp; os.utime(fp, ({t}, {t}))',
+                'delete': 'os.remove(fp)', 'restore': f'put the original bytes back; os.utime(fp, ({T0}, {T0}))'}[op[1]]
+    raise ValueError(k)
+
+
+def _flags(bus):
+    return [bool(x) for x in bus.status['loaded'].values.tolist()]
+
+
+def _canon_frame(env, f):
+    from static_frame.core.bus import FrameDeferred
+    import static_frame as sf
+    if f is FrameDeferred:
+        return None
+    if isinstance(f, sf.Frame):
+        try:
+            return env.lit2id.get(lit.oframe(f), -1)
+        except ValueError:
+            return -1
+    return -2
+
+
+def _bus_obs(bus):
+    return ('bus', [_rank(l) for l in bus.keys()], _flags(bus))
+
+
+def _sort_key(s):
+    return np.array([int(f.iloc[0, 0]) for f in s.values])
+
+
+def apply_op(env, bus, op):
+    """Run one operation on the implementation. Returns (observation, the Bus the history continues on)."""
+    import static_frame as sf
+    k = op[0]
+    if k in ('sel', 'drop'):
+        via, key, into = op[1], op[2], op[3]
+        target = bus if k == 'sel' else bus.drop
+        r = target[key_py(key)] if via == 'getitem' else getattr(target, via)[key_py(key)]
+        if isinstance(r, sf.Bus):
+            return _bus_obs(r), (r if into else bus)
+        return ('slot', _canon_frame(env, r)), bus
+    if k in ('head', 'tail'):
+        r = getattr(bus, k)(op[1])
+        return _bus_obs(r), (r if op[2] else bus)
+    if k == 'items':
+        return ('items', [(_rank(l), _canon_frame(env, f)) for l, f in list(bus.items())]), bus
+    if k == 'values':
+        return ('slots', [_canon_frame(env, f) for f in tuple(bus.values)]), bus
+    if k == 'keys':
+        return ('labels', [_rank(l) for l in bus.keys()]), bus
+    if k == 'iter':
+        return ('labels', [_rank(l) for l in iter(bus)]), bus
+    if k == 'status':
+        return ('flags', _flags(bus)), bus
+    if k == 'get':
+        r = bus.get(op[1])
+        if r is None:
+            return ('unit',), bus
+        return ('slot', _canon_frame(env, r)), bus
+    if k == 'iter_element':
+        return ('slots', [_canon_frame(env, f) for f in tuple(bus.iter_element())]), bus
+    if k == 'iter_element_items':
+        return ('items', [(_rank(l), _canon_frame(env, f)) for l, f in tuple(bus.iter_element_items())]), bus
+    if k == 'reindex':
+        r = bus.reindex(list(op[1]), fill_value=None)
+        return _bus_obs(r), (r if op[2] else bus)
+    if k == 'sort_index':
+        r = bus.sort_index(ascending=op[1])
+        return _bus_obs(r), (r if op[2] else bus)
+    if k == 'sort_values':
+        r = bus.sort_values(ascending=op[1], key=_sort_key)
+        return _bus_obs(r), (r if op[2] else bus)
+    if k == 'file':
+        env.file_op(op[1], op[2] if len(op) > 2 else None)
+        return ('unit',), bus
+    raise ValueError(k)
+
+
+def _slot_lit(v):
+    return 'None' if v is None else f'(Some {lit.z(v)})'
+
+
+def obs_coq(ob):
+    k = ob[0]
+    if k == 'slot':
+        return f'bSlot {_slot_lit(ob[1])}'
+    if k == 'bus':
+        return f'bBus {lit.lst([str(x) for x in ob[1]])} {lit.lst([lit.b(x) for x in ob[2]])}'
+    if k == 'items':
+        return 'bItems ' + lit.lst([f'({l}, {_slot_lit(v)})' for l, v in ob[1]])
+    if k == 'slots':
+        return 'bSlots ' + lit.lst([_slot_lit(v) for v in ob[1]])
+    if k == 'labels':
+        return 'bLabels ' + lit.lst([str(x) for x in ob[1]])
+    if k == 'flags':
+        return 'bFlags ' + lit.lst([lit.b(x) for x in ob[1]])
+    if k == 'unit':
+        return 'bUnit'
+    if k == 'err':
+        return f'bErr {lit.s(ob[1])}'
+    raise ValueError(k)
+
+
+def _logging_store(store, log):
+    """The same store, recording every read_many call that passes the coherence check (kernel level)."""
+    cls = type(store)
+
+    class Logged(cls):
+        __slots__ = ()
+
+        def read_many(self, labels, **kw):
+            labels = list(labels)
+            it = cls.read_many(self, labels, **kw)
+            log.append([_rank(l) for l in labels])
+            return it
+    new = Logged.__new__(Logged)
+    new._fp = store._fp
+    new._last_modified = store._last_modified
+    return new
+
+
+def run_history(env, mp, ops, kernel=False, online=None):
+    """Run a history on the implementation. ops: a list, or with online=fn(step, bus, labels) a generator of the
+    next operation from the current labels.  Returns (ops, trace); a trace entry is (obs, flags[, la, log])."""
+    bus = env.open(mp)
+    log = []
+    if kernel:
+        bus._store = _logging_store(bus._store, log)
+    trace = []
+    done = []
+    step = 0
+    while True:
+        if online is not None:
+            op = online(step, [str(l) for l in bus.keys()])
+            if op is None:
+                break
+        else:
+            if step >= len(ops):
+                break
+            op = ops[step]
+        step += 1
+        done.append(op)
+        try:
+            ob, bus = apply_op(env, bus, op)
+        except Exception as e:  # noqa
+            ob = ('err', lit.err_class(e))
+        flags = _flags(bus)
+        if kernel:
+            private = [bool(x) for x in bus._loaded.tolist()]
+            if private != flags:
+                ob = ('err', f'status/_loaded disagree {flags} {private}')
+            la = [_rank(l) for l in bus._last_accessed] if mp is not None else []
+            trace.append((ob, flags, la, [list(b) for b in log]))
+            del log[:]
+        else:
+            trace.append((ob, flags))
+    return done, trace
+
+
+def trace_coq(trace, kernel=False):
+    out = []
+    for t in trace:
+        base = f'({obs_coq(t[0])}, {lit.lst([lit.b(x) for x in t[1]])}'
+        if kernel:
+            base += f', {lit.lst([str(x) for x in t[2]])}, {lit.lst([lit.lst([str(x) for x in b]) for b in t[3]])}'
+        out.append(base + ')')
+    return lit.lst(out)
+
+
+def mp_coq(mp):
+    return 'None' if mp is None else f'(Some {lit.z(mp)})'
+
+
+def history_case(kind, env, mp, ops, trace, kernel=False, tags=None, nontrivial=True, extra=None, default_differs=None, in_domain=None):
+    ops_lit = lit.lst([op_coq(o) for o in ops])
+    args = f'{env.content_lit(default_differs)} {T0} {mp_coq(mp)} {env.keytbl_lit()} {ops_lit}'
+    if kernel:
+        m = f'z_ktrace_eqb (z_m_run_k {args}) {trace_coq(trace, True)}'
+        pub = [(t[0], t[1]) for t in trace]
+    else:
+        m = f'z_trace_eqb (z_m_run {args}) {trace_coq(trace)}'
+        pub = trace
+    s = f'z_trace_eqb (z_s_run {args}) {trace_coq(pub)}'
+    if in_domain is not None:
+        # is this history where the refinement theorem C17_bus_refines_spec says it is?
+        m = f'({m}) && Bool.eqb (z_in_domain {args}) {lit.b(in_domain)}'
+    desc = {'store': env.describe(), 'open': f'sf.Bus.from_{env.fmt}(fp, config=..., max_persist={mp})',
+            'history': [op_desc(o) for o in ops],
+            'observed': [obs_coq(t[0]) + ' loaded=' + ''.join('1' if x else '0' for x in t[1]) for t in trace]}
+    if kernel:
+        desc['observed_private'] = [{'_last_accessed': t[2], 'store reads': t[3]} for t in trace]
+    if extra:
+        desc.update(extra)
+    return Case(kind, desc, m=m, s=s, tags=dict(tags or {}), nontrivial=nontrivial)
+
+
+# ---------------------------------------------------------------------------------- strata
+class Work:
+    """Per-run temporary directory (removed when the generator is closed or exhausted)."""
+
+    def __init__(self):
+        self.tmp = tempfile.mkdtemp(prefix='sfv_c17_')
+        self.n = 0
+
+    def name(self, stem):
+        self.n += 1
+        return f'{stem}_{self.n}'
+
+    def close(self):
+        shutil.rmtree(self.tmp, ignore_errors=True)
+
+
+def uniform_kinds(rng, n, cls=None):
+    cls = cls or rng.choice(list(KINDS_BY_CLASS))
+    return [rng.choice(KINDS_BY_CLASS[cls]) for _ in range(n)]
+
+
+def roundtrip_cases(ctx, work):
+    """write a Bus of 1..n Frames, open it again: same labels in the same order, an equal Frame under each label."""
+    import static_frame as sf
+    rng = ctx.rng
+    for fmt in FORMATS:
+        for i in range(ctx.n(6, 60)):
+            n = rng.randrange(1, 6)
+            order = rng.sample([_label(r) for r in range(8)], n)
+            mapped = fmt != 'zip_pickle' and rng.random() < .6
+            kinds = [rng.choice(list(KIND_CFG)) for _ in range(n)] if (mapped or fmt == 'zip_pickle') else uniform_kinds(rng, n)
+            env = Env(work.tmp, work.name('rt'), fmt, order, kinds, mapped, rng)
+            ctx.count(f'roundtrip:{fmt}', f'roundtrip:n={n}', *(f'kind:{k}' for k in set(kinds)))
+            mp = rng.choice([None, 1, 2, n])
+            py_fail = None
+            try:
+                bus = env.open(mp)
+                got_labels = [str(l) for l in bus.keys()]
+                got = [f for _, f in bus.items()]           # items() is correct for every max_persist
+                read_lit = lit.lst([lit.oframe(f) for f in got])
+            except Exception as e:  # noqa
+                got_labels, read_lit = [], '[]'
+                py_fail = f'reading the store back raised {type(e).__name__}: {e}'
+            written_lit = lit.lst([lit.oframe(env.frames[l]) for l in order])
+            term = f'rt_ok {lit.vlist(order)} {lit.vlist(got_labels)} {written_lit} {read_lit}'
+            yield Case('api:roundtrip', {'store': env.describe(), 'max_persist': mp,
+                                         'call': f'Bus.from_frames(frames).to_{fmt}(fp, config); Bus.from_{fmt}(fp, config, max_persist).items()',
+                                         'labels_read': got_labels},
+                       m=term, s=term, py_fail=py_fail, tags={'stratum': 'roundtrip', 'format': fmt})
+    # optional formats: recorded, exercised only when the library is there
+    for fmt, (module, ext) in OPTIONAL.items():
+        try:
+            __import__(module)
+            ctx.count(f'optional:{fmt}:available-but-not-exercised')
+        except Exception:  # noqa
+            ctx.count(f'optional:{fmt}:library-missing')
+
+
+# the fixed alphabet of the exhaustive stratum: 3 labels in store order f1, f2, f0
+EXH_ORDER = ['f1', 'f2', 'f0']
+EXH_ALPHABET = [
+    ('sel', 'getitem', ('label', 'f1'), False),
+    ('sel', 'loc', ('label', 'f2'), False),
+    ('sel', 'iloc', ('int', -1), False),
+    ('sel', 'loc', ('labels', ['f0', 'f1']), False),
+    ('sel', 'iloc', ('slice', (0, 2, None)), False),
+    ('sel', 'getitem', ('mask', [False, True, True]), False),
+    ('sel', 'iloc', ('list', [1, 2, 0]), False),
+    ('values',),
+    ('items',),
+    ('sort_index', False, False),
+]
+
+
+def exhaustive_cases(ctx, work):
+    rng = ctx.rng
+    length = 3 if ctx.tier == 'quick' else 4
+    env = Env(work.tmp, work.name('exh'), 'zip_pickle', EXH_ORDER, ['str_idx', 'mixed', 'one'], False, rng)
+    for mp in (None, 1, 2, 3):
+        for hist in itertools.product(EXH_ALPHABET, repeat=length):
+            ops, trace = run_history(env, mp, list(hist))
+            ctx.count(f'exhaustive:mp={mp}')
+            yield history_case('api:history-exhaustive', env, mp, ops, trace, tags={'stratum': 'exhaustive', 'mp': mp},
+                               nontrivial=mp is not None, in_domain=True)
+
+
+
+# ---------------------------------------------------------------------------------- random histories
+def rand_key(rng, cur, bulk_ok=True):
+    """A well-formed key over the current labels: (via, key)."""
+    n = len(cur)
+    kinds = ['label', 'int'] if n else []
+    if bulk_ok:
+        kinds += ['list', 'slice', 'mask', 'lslice', 'slice'] + (['labels'] if n else [])
+    kind = rng.choice(kinds)
+    if kind == 'label':
+        return rng.choice(['getitem', 'loc']), ('label', rng.choice(cur))
+    if kind == 'int':
+        return 'iloc', ('int', rng.randrange(-n, n))
+    if kind == 'labels':
+        return rng.choice(['getitem', 'loc']), ('labels', rng.sample(cur, rng.randrange(1, n + 1)))
+    if kind == 'list':
+        ps = rng.sample(range(n), rng.randrange(0, n + 1))
+        return 'iloc', ('list', [p - n if rng.random() < .3 else p for p in ps])
+    if kind == 'slice':
+        b = lambda: rng.choice([None] + list(range(-n - 1, n + 2)))
+        return 'iloc', ('slice', (b(), b(), rng.choice([None, None, 1, 2, -1, -2])))
+    if kind == 'mask':
+        return rng.choice(['getitem', 'loc', 'iloc']), ('mask', [rng.random() < .5 for _ in range(n)])
+    if kind == 'lslice':
+        e = lambda: rng.choice([None] + cur) if cur else None
+        return rng.choice(['getitem', 'loc']), ('lslice', (e(), e()))
+    raise ValueError(kind)
+
+
+class RandomHistory:
+    """Online generator of well-formed operations that stay clear of the known findings BY CONSTRUCTION:
+    no get/iter_element unless everything was loaded by a previous values/items with max_persist=None,
+    no sort_values with max_persist < len(bus), no bulk selection with max_persist == 1 under a per-label
+    configuration map, no file events."""
+
+    def __init__(self, rng, env, mp, length, count=None):
+        self.rng, self.env, self.mp, self.length, self.count = rng, env, mp, length, count
+        self.all_loaded = False
+
+    def __call__(self, step, cur):
+        if step >= self.length:
+            return None
+        rng, mp, n = self.rng, self.mp, len(cur)
+        bulk_ok = not (self.env.mapped and mp == 1)
+        menu = ['sel'] * 10 + ['values', 'items', 'values', 'items', 'keys', 'iter', 'status', 'sort_index', 'sort_index']
+        if bulk_ok:
+            menu += ['head', 'tail']
+        if n:
+            menu += ['drop', 'drop', 'reindex', 'reindex']
+            if mp is None or mp >= n:
+                menu += ['sort_values', 'sort_values']
+            if self.all_loaded:
+                menu += ['get', 'iter_element', 'iter_element_items']
+        k = rng.choice(menu)
+        into = rng.random() < .3
+        if self.count:
+            self.count(f'op:{k}')
+        if k == 'sel':
+            via, key = rand_key(rng, cur, bulk_ok)
+            size = key_size(key, n, cur)
+            if self.count:
+                self.count(f'key:{key[0]}')
+            return ('sel', via, key, bool(into and size))
+        if k == 'drop':
+            via, key = rand_key(rng, cur, True)
+            size = key_size(key, n, cur)
+            return ('drop', via, key, bool(into and size is not None and size < n))
+        if k in ('head', 'tail'):
+            c = rng.randrange(1, n + 2)
+            return (k, c, into and n > 0)
+        if k == 'reindex':
+            return ('reindex', rng.sample(cur, rng.randrange(1, n + 1)), into)
+        if k == 'sort_index':
+            return ('sort_index', rng.random() < .5, into)
+        if k == 'sort_values':
+            return ('sort_values', rng.random() < .5, into)
+        if k == 'get':
+            return ('get', rng.choice(cur + [UNKNOWN_LABEL]))
+        if k in ('values', 'items'):
+            if mp is None:
+                self.all_loaded = True
+            return (k,)
+        return (k,)
+
+
+def random_env(rng, work, fmt, n=None, mapped=None, stem='env'):
+    n = n or rng.randrange(2, 7)
+    order = rng.sample([_label(r) for r in range(9)], n)
+    if mapped is None:
+        mapped = fmt != 'zip_pickle' and rng.random() < .5
+    kinds = [rng.choice(list(KIND_CFG)) for _ in range(n)] if (mapped or fmt == 'zip_pickle') else uniform_kinds(rng, n)
+    return Env(work.tmp, work.name(stem), fmt, order, kinds, mapped, rng)
+
+
+def random_cases(ctx, work, kernel):
+    rng = ctx.rng
+    kind = 'kernel:history' if kernel else 'api:history-random'
+    for i in range(ctx.n(60, 1500) if not kernel else ctx.n(60, 1500)):
+        fmt = FORMATS[i % len(FORMATS)]
+        env = random_env(rng, work, fmt)
+        n = len(env.order)
+        for mp in rng.sample([None, 1, 2, 3, n, n + 1], 2):
+            length = rng.randrange(4, 31 if ctx.tier == 'thorough' else 16)
+            ops, trace = run_history(env, mp, None, kernel=kernel, online=RandomHistory(rng, env, mp, length, ctx.count))
+            ctx.count(f'{kind}:{fmt}', f'{kind}:mp={"None" if mp is None else ("n+" if mp >= n else mp)}',
+                      f'{kind}:config={"map" if env.mapped else "one"}')
+            in_dom = mp is None or not any(o[0] == 'sort_values' for o in ops)    # sort_values is proved for max_persist=None only
+            ctx.count(f'{kind}:in-theorem-domain={in_dom}')
+            yield history_case(kind, env, mp, ops, trace, kernel=kernel, in_domain=in_dom,
+                               tags={'stratum': 'kernel' if kernel else 'random', 'format': fmt, 'mp': mp})
+
+
+# ---------------------------------------------------------------------------------- stale files
+STALE_ALPHABET = [
+    ('sel', 'getitem', ('label', 'f1'), False),
+    ('sel', 'getitem', ('label', 'f0'), False),
+    ('sel', 'loc', ('labels', ['f0', 'f2']), False),
+    ('sel', 'iloc', ('slice', (None, None, -1)), True),
+    ('values',),
+    ('items',),
+    ('status',),
+]
+FILE_EVENTS = [('file', 'touch', T0 + 5), ('file', 'rewrite', T0 + 7), ('file', 'delete')]
+
+
+def stale_cases(ctx, work):
+    """the file is touched / rewritten / deleted at EVERY point of a history: the next read must raise StoreFileMutation;
+    accesses served from memory still answer."""
+    rng = ctx.rng
+    envs = {fmt: Env(work.tmp, work.name('stale'), fmt, EXH_ORDER, ['str_idx', 'mixed', 'one'], False, rng) for fmt in FORMATS}
+    length = 3
+    hists = list(itertools.product(STALE_ALPHABET, repeat=length))
+    combos = [(h, i, ev, mp) for h in hists for i in range(length + 1) for ev in FILE_EVENTS for mp in (None, 1, 2)]
+    if ctx.tier == 'quick':
+        combos = rng.sample(combos, min(len(combos), ctx.n(500, 0)))
+    else:
+        combos = rng.sample(combos, min(len(combos), ctx.n(0, 6000)))
+    for j, (h, i, ev, mp) in enumerate(combos):
+        fmt = FORMATS[j % len(FORMATS)]
+        env = envs[fmt].clone(work.tmp, work.name('st'))
+        ops = list(h[:i]) + [ev] + list(h[i:])
+        ops, trace = run_history(env, mp, ops)
+        os.path.exists(env.fp) and os.remove(env.fp)
+        ctx.count(f'stale:{ev[1]}', f'stale:point={i}', f'stale:{fmt}')
+        raised = any(t[0] == ('err', 'StoreFileMutation') for t in trace)
+        yield history_case('api:stale', env, mp, ops, trace, in_domain=True,
+                           tags={'stratum': 'stale', 'event': ev[1], 'format': fmt, 'mp': mp}, nontrivial=raised)
+
+
+# ---------------------------------------------------------------------------------- malformed keys
+def malformed_key(rng, cur):
+    n = len(cur)
+    k = rng.choice(['int_oor', 'list_oor', 'list_dup', 'mask_len', 'label_absent', 'labels_absent', 'labels_dup', 'lslice_absent', 'step0'])
+    if k == 'int_oor':
+        return 'iloc', ('int', rng.choice([n, n + 3, -n - 1]))
+    if k == 'list_oor':
+        return 'iloc', ('list', [0, rng.choice([n, -n - 1])])
+    if k == 'list_dup':
+        p = rng.randrange(n)
+        return 'iloc', ('list', [p, rng.choice([p, p - n])])
+    if k == 'mask_len':
+        return rng.choice(['loc', 'iloc']), ('mask', [True] * (n + rng.choice([-1, 1])))
+    if k == 'label_absent':
+        return rng.choice(['getitem', 'loc']), ('label', UNKNOWN_LABEL)
+    if k == 'labels_absent':
+        return 'loc', ('labels', [cur[0], UNKNOWN_LABEL])
+    if k == 'labels_dup':
+        return 'loc', ('labels', [cur[0], cur[0]])
+    if k == 'lslice_absent':
+        return 'loc', ('lslice', (cur[0], UNKNOWN_LABEL) if rng.random() < .5 else (UNKNOWN_LABEL, None))
+    return 'iloc', ('slice', (None, None, 0))
+
+
+def malformed_cases(ctx, work):
+    """keys that address nothing valid, at a random point of a random history: an error, no data, nothing loaded."""
+    rng = ctx.rng
+    for i in range(ctx.n(40, 600)):
+        fmt = FORMATS[i % len(FORMATS)]
+        env = random_env(rng, work, fmt, n=rng.randrange(2, 5))
+        mp = rng.choice([None, 1, 2])
+        length = rng.randrange(2, 8)
+        bad_at = set(rng.sample(range(length), rng.randrange(1, 3)))
+        inner = RandomHistory(rng, env, mp, length)
+
+        def online(step, cur, inner=inner, bad_at=bad_at):
+            if step >= length:
+                return None
+            if step in bad_at and cur:
+                via, key = malformed_key(rng, cur)
+                ctx.count(f'malformed:{key[0]}')
+                if key[0] == 'label' and rng.random() < .3:
+                    return ('drop', via, key, False)
+                return ('sel', via, key, False)
+            return inner(step, cur)
+        ops, trace = run_history(env, mp, None, online=online)
+        yield history_case('api:malformed', env, mp, ops, trace, tags={'stratum': 'malformed', 'format': fmt, 'mp': mp})
+
+
+# ---------------------------------------------------------------------------------- Bus._store_reader called directly
+def store_reader_cases(ctx):
+    from static_frame.core.bus import Bus
+
+    class Stub:
+        def __init__(self):
+            self.calls = []
+
+        def read_many(self, labels, *, config=None):
+            labels = list(labels)
+            self.calls.append(labels)
+            return iter([('F', l) for l in labels])
+
+        def read(self, label, *, config=None):
+            self.calls.append([label])
+            return ('F', label)
+
+    class Cfg:
+        def __init__(self):
+            self.keys = []
+
+        def __getitem__(self, k):
+            self.keys.append(k)
+            return None
+    top = 7 if ctx.tier == 'quick' else 12
+    for n in range(0, top + 1):
+        for mp in [None] + list(range(1, top + 2)):
+            st, cfg = Stub(), Cfg()
+            labels = list(range(n))
+            try:
+                out = list(Bus._store_reader(store=st, config=cfg, labels=iter(labels), max_persist=mp))
+            except Exception as e:  # noqa
+                out = type(e).__name__
+            by_label = all(k in labels for k in cfg.keys)
+            ctx.count('store_reader')
+            py_fail = None
+            tags = {'kernel': 'store_reader', 'mp': mp}
+            if mp == 1 and n >= 1:
+                tags['finding'] = 'C17-config-max-persist-1'      # by construction: the max_persist == 1 branch with labels to read
+            if out != [('F', l) for l in labels]:
+                py_fail = f'_store_reader yields {out!r} for labels {labels}'
+            elif mp is not None and any(len(c) > max(mp, 1) for c in st.calls):
+                py_fail = f'_store_reader reads {st.calls} at once with max_persist={mp}'
+            elif not by_label:
+                py_fail = f'_store_reader looks the configuration up with a non-label key ({type(cfg.keys[0]).__name__}) for max_persist={mp}'
+            calls_lit = lit.lst([lit.lst([str(x) for x in c]) for c in st.calls])
+            mode = 'CfgLabel' if (by_label or not cfg.keys) else 'CfgDefault'
+            want_mode = f'match reader_mode {mp_coq(mp)} with CfgLabel => true | CfgDefault => {lit.b(n == 0)} end' if mode == 'CfgLabel' else \
+                        f'match reader_mode {mp_coq(mp)} with CfgLabel => false | CfgDefault => true end'
+            yield Case('kernel:store_reader',
+                       {'call': 'Bus._store_reader(store=stub, config=recording_map, labels=iter(range(n)), max_persist=mp)', 'n': n,
+                        'max_persist': mp, 'read calls': st.calls, 'config keys are labels': by_label},
+                       m=f'z_batches_eqb (z_reader_batches {mp_coq(mp)} {lit.lst([str(x) for x in labels])}) {calls_lit} && ({want_mode})',
+                       py_fail=py_fail, tags=tags, nontrivial=n > 1)
+
+
+# ---------------------------------------------------------------------------------- known findings: one narrow stratum each
+def finding_cases(ctx, work):
+    rng = ctx.rng
+    acc = lambda l: ('sel', 'getitem', ('label', l), False)
+    four = ['f0', 'f1', 'f2', 'f3']
+
+    # (1) a failed read leaves the label in _last_accessed; once the file is back, max_persist can be exceeded
+    tag = {'finding': 'C17-failed-read-lru'}
+    env0 = Env(work.tmp, work.name('fr'), 'zip_pickle', four, ['str_idx', 'one', 'mixed', 'wide'], False, rng)
+    witness = [acc('f0'), acc('f2'), ('file', 'touch', T0 + 5), acc('f1'), ('file', 'restore'), acc('f0'), acc('f2'), acc('f3'), ('status',)]
+    hists = [(env0, 2, witness)]
+    for i in range(ctx.n(12, 200)):
+        fmt = FORMATS[i % len(FORMATS)]
+        env = random_env(rng, work, fmt, n=rng.randrange(3, 6), mapped=False, stem='fr')
+        mp = rng.randrange(1, len(env.order))
+        labels = list(env.order)
+        fresh = labels.pop(rng.randrange(len(labels)))            # never accessed before the failure: needs a read
+        pre = [acc(rng.choice(labels)) for _ in range(rng.randrange(0, 5))]
+        ev = rng.choice(FILE_EVENTS)
+        post = [rng.choice([acc(rng.choice(env.order)), ('values',), ('sel', 'loc', ('labels', rng.sample(env.order, 2)), False)])
+                for _ in range(rng.randrange(2, 9))]
+        hists.append((env, mp, pre + [ev, acc(fresh), ('file', 'restore')] + post))
+    for j, (env, mp, ops) in enumerate(hists):
+        env = env.clone(work.tmp, work.name('frc'))
+        ops, trace = run_history(env, mp, ops, kernel=True)
+        os.path.exists(env.fp) and os.remove(env.fp)
+        ctx.count('finding:failed-read-then-restore')
+        yield history_case('finding:restore-after-failed-read', env, mp, ops, trace, kernel=True,
+                           tags=dict(tag, format=env.fmt, mp=mp, witness=(j == 0)))
+
+    # (2) Bus.get / iter_element / iter_element_items hand out the FrameDeferred placeholder
+    env = Env(work.tmp, work.name('ph'), 'zip_pickle', four, ['str_idx', 'one', 'mixed', 'auto'], False, rng)
+    for mp in (None, 1, 2):
+        for pre_n in range(0, ctx.n(3, 6)):
+            labels = list(four)
+            fresh = labels.pop(rng.randrange(4))                  # never accessed: still deferred by construction
+            pre = [acc(rng.choice(labels)) for _ in range(pre_n)]
+            for last, fid in ((('get', fresh), 'C17-get-placeholder'), (('iter_element',), 'C17-iter-element-placeholder'),
+                              (('iter_element_items',), 'C17-iter-element-placeholder')):
+                ops, trace = run_history(env, mp, pre + [last])
+                ctx.count(f'finding:{last[0]}-placeholder')
+                yield history_case('finding:placeholder', env, mp, ops, trace, tags={'finding': fid, 'op': last[0], 'mp': mp})
+
+    # (3) sort_values on a Bus whose max_persist is smaller than its length
+    for i in range(ctx.n(4, 40)):
+        fmt = FORMATS[i % len(FORMATS)]
+        env = random_env(rng, work, fmt, n=rng.randrange(2, 6), mapped=False, stem='sv')
+        mp = rng.randrange(1, len(env.order))
+        pre = [acc(rng.choice(env.order)) for _ in range(rng.randrange(0, 3))]
+        ops, trace = run_history(env, mp, pre + [('sort_values', rng.random() < .5, True), ('values',)])
+        ctx.count('finding:sort_values-max_persist')
+        yield history_case('finding:sort-values', env, mp, ops, trace,
+                           tags={'finding': 'C17-sort-values-max-persist', 'format': fmt, 'mp': mp})
+
+    # (4) max_persist == 1, a per-label configuration map, a selection of several labels: read with the DEFAULT configuration
+    import static_frame as sf
+    for i in range(ctx.n(4, 40)):
+        fmt = ('zip_csv', 'zip_tsv')[i % 2]
+        n = rng.randrange(2, 5)
+        order = rng.sample([_label(r) for r in range(6)], n)
+        kinds = [rng.choice(['str_idx', 'mixed', 'one', 'wide']) for _ in range(n)]
+        env = Env(work.tmp, work.name('cf'), fmt, order, kinds, True, rng)
+        plain = getattr(sf.Bus, 'from_' + fmt)(env.fp)            # no configuration: every label read with the default
+        for l in order:
+            env.lit2id[lit.oframe(plain[l])] = env.fid[l] + 100
+        sel = rng.sample(order, rng.randrange(2, n + 1))
+        ops = [('sel', 'loc', ('labels', sel), True), ('iter_element',), ('values',)]
+        if i % 3 == 0:
+            ops = [('sel', 'iloc', ('slice', (None, None, None)), True), ('iter_element',), ('values',)]
+        ops, trace = run_history(env, 1, ops)
+        ctx.count('finding:config-max_persist-1')
+        yield history_case('finding:config-map-max-persist-1', env, 1, ops, trace, default_differs=True,
+                           tags={'finding': 'C17-config-max-persist-1', 'format': fmt, 'mp': 1})
+
+
 def cases(ctx):
-    return
-    yield
+    work = Work()
+    try:
+        yield from finding_cases(ctx, work)
+        yield from store_reader_cases(ctx)
+        yield from roundtrip_cases(ctx, work)
+        yield from malformed_cases(ctx, work)
+        yield from stale_cases(ctx, work)
+        yield from random_cases(ctx, work, kernel=False)
+        yield from random_cases(ctx, work, kernel=True)
+        yield from exhaustive_cases(ctx, work)
+    finally:
+        work.close()
